@@ -31,7 +31,8 @@ func init() {
 			"C03-R3": "who may construct *agd.DeviceResultOK",
 			"C03-R4": "only DeviceResultOK carries a profile/device; handleDeviceResult table",
 			"C03-R5": "deviceByExtID: create an automatic device only for an existing profile without that device",
-			"C03-R7": "authentication settings survive the profile file cache (enabled iff present)",
+			"C03-R7": "authentication settings survive the backend conversion and the profile file cache (enabled iff present; DoH-only flag and hash copied whenever present)",
+			"C03-R9": "profile database lookups by linked IP, dedicated IP, human ID and device ID re-check the current data (shared with C14-R4)",
 			"C03-R8": "a password authenticates only when the hash comparison returns no error",
 			"C03-R6": "identifier channel by transport (DoH: user info > URL path > server name; DoT/DoQ: server name; plain DNS: EDNS option)",
 		},
@@ -42,13 +43,15 @@ func init() {
 const dfPkg = "dnssvc/internal/devicefinder."
 
 func runC03(c *an.Ctx) {
+	c.Floor("C03-R9", 4)
+	c14Lookups(c, "C03-R9")
 	c.Floor("C03-R1", 1)
 	c.Floor("C03-R2", 1)
 	c.Floor("C03-R3", 2)
 	c.Floor("C03-R4", 5)
 	c.Floor("C03-R5", 1)
 	c.Floor("C03-R6", 1)
-	c.Floor("C03-R7", 1)
+	c.Floor("C03-R7", 2)
 	c.Floor("C03-R8", 1)
 
 	proto := func(name string) int64 {
@@ -372,44 +375,46 @@ func runC03(c *an.Ctx) {
 	})
 
 	// ---- R7: the authentication settings survive the file cache: enabled exactly when the message is present
-	decide(c, "C03-R7", "profiledb/internal/filecachepb.(*AuthenticationSettings).toInternal", an.DecideCfg{
-		Dom: an.Domain{"p0": an.NilOrNot, "pwerr": an.Bools},
-		OnCall: func(it *an.Interp, name string, args []an.AV) (an.AV, bool) {
-			switch {
-			case strings.HasSuffix(name, "filecachepb.dohPasswordToInternal"):
-				if it.Feature("pwerr").IsTrue() {
-					return an.AV{Kind: an.KTuple, Tup: []an.AV{an.Nil(), an.NonNil("pwErr")}}, true
+	for _, pk := range []string{"profiledb/internal/filecachepb", "backendpb"} {
+		decide(c, "C03-R7", pk+".(*AuthenticationSettings).toInternal", an.DecideCfg{
+			Dom: an.Domain{"p0": an.NilOrNot, "pwerr": an.Bools},
+			OnCall: func(it *an.Interp, name string, args []an.AV) (an.AV, bool) {
+				switch {
+				case strings.HasSuffix(name, ".dohPasswordToInternal"):
+					if it.Feature("pwerr").IsTrue() {
+						return an.AV{Kind: an.KTuple, Tup: []an.AV{an.Nil(), an.NonNil("pwErr")}}, true
+					}
+					return an.AV{Kind: an.KTuple, Tup: []an.AV{an.Sym("hash(" + args[0].String() + ")"), an.Nil()}}, true
+				case name == "fmt.Errorf":
+					return an.NonNil("wrapped"), true
 				}
-				return an.AV{Kind: an.KTuple, Tup: []an.AV{an.Sym("hash(" + args[0].String() + ")"), an.Nil()}}, true
-			case name == "fmt.Errorf":
-				return an.NonNil("wrapped"), true
-			}
-			return an.AV{}, false
-		},
-		Expect: func(f an.Features, o an.AOutcome) string {
-			if o.Exit != "return" || len(o.Ret) != 2 {
-				return "a (settings, err) result"
-			}
-			k := strings.TrimPrefix(o.Ret[0].String(), "&")
-			if f.IsNil("p0") {
-				if o.Ret[1].Kind == an.KNil && o.Mem[k+".Enabled"].String() == "false" {
+				return an.AV{}, false
+			},
+			Expect: func(f an.Features, o an.AOutcome) string {
+				if o.Exit != "return" || len(o.Ret) != 2 {
+					return "a (settings, err) result"
+				}
+				k := strings.TrimPrefix(o.Ret[0].String(), "&")
+				if f.IsNil("p0") {
+					if o.Ret[1].Kind == an.KNil && o.Mem[k+".Enabled"].String() == "false" {
+						return ""
+					}
+					return "disabled settings for an absent message"
+				}
+				if f.B("pwerr") {
+					if o.Ret[1].Kind != an.KNil {
+						return ""
+					}
+					return "an error for an undecodable password hash"
+				}
+				if o.Mem[k+".Enabled"].String() == "true" && o.Mem[k+".DoHAuthOnly"].String() == "p0.DohAuthOnly" && o.Mem[k+".PasswordHash"].String() == "hash(p0.DohPasswordHash)" {
 					return ""
 				}
-				return "disabled settings for an absent message"
-			}
-			if f.B("pwerr") {
-				if o.Ret[1].Kind != an.KNil {
-					return ""
-				}
-				return "an error for an undecodable password hash"
-			}
-			if o.Mem[k+".Enabled"].String() == "true" && o.Mem[k+".DoHAuthOnly"].String() == "p0.DohAuthOnly" && o.Mem[k+".PasswordHash"].String() == "hash(p0.DohPasswordHash)" {
-				return ""
-			}
-			return "enabled settings carrying the stored DoH-only flag and password hash whenever the message is present (also without a password hash); got Enabled=" +
-				o.Mem[k+".Enabled"].String() + " DoHAuthOnly=" + o.Mem[k+".DoHAuthOnly"].String()
-		},
-	})
+				return "enabled settings carrying the stored DoH-only flag and password hash whenever the message is present (also without a password hash); got Enabled=" +
+					o.Mem[k+".Enabled"].String() + " DoHAuthOnly=" + o.Mem[k+".DoHAuthOnly"].String()
+			},
+		})
+	}
 	// ---- R8: a password authenticates only when the hash comparison succeeds
 	decide(c, "C03-R8", "agdpasswd.(*PasswordHashBcrypt).Authenticate", an.DecideCfg{
 		Dom: an.Domain{"cmp": an.NilOrNot},
